@@ -24,7 +24,8 @@ LEVEL_TEXT = ("held on N generated programs (random ASTs, depth<=6, <=12 leaves,
               "compiler against a reference semantics: exploration over programs, not a proof.")
 LEVEL_NOTE = ("float comparison uses a propagated error bound sound for any association inside +/- and */÷ chains "
               "(the engine legitimately re-associates a+b-c as a+(b-c)); cases whose bound is non-discriminating are "
-              "counted but not counted as non-trivial; division by exact zero is routed to C13")
+              "counted but not counted as non-trivial; division by exact zero is routed to C13"
+              ' Build phase: API mode also re-uses intermediate builder objects in a second expression; pool mode (FormulaEnginePool.from_string); inputs beginning at different times / lacking a sample.')
 RULE = ("seeded random ASTs over + - * / (strings) and + - * / min max consumption production constants (API), same "
         "engine reused as several leaves; vectors from a pool with zeros, negatives, values cancelling "
         "sub-expressions, large values and non-dyadic rationals. distinct = canonical program JSON; non-trivial = "
